@@ -1,6 +1,6 @@
 """C03 -- transport headers verify: TCP/UDP/ICMP checksums, UDP length, ICMP echo fields."""
 import struct
-import common, diff, gen, progs
+import common, diff, gen, progs, carry
 from diff import Case
 from gen import *
 
@@ -92,6 +92,7 @@ def run(ctx):
         c.name, c.stmts, c.files, c.text, c.meta, c.gen = "p%d" % i, g.stmts, {}, None, g.meta, None
         cases.append(c)
     cases += special_cases(ctx)
+    cases += carry.l4_cases(ctx, 60 if ctx.thorough else 24)
     diff.run_both(ctx, "c03", cases)
     queries, owners = [], []
     for c in cases:
